@@ -8,6 +8,7 @@ Import ListNotations.
 
 Inductive tev :=
 | TE (e : ev)
+| TN (k : N)      (* a request written without callback (OnOpen's RegisterRM re-announcement) *)
 | TObs (ntable nparked : N).
 
 Record fout := mkOut { fo_k : N; fo_has_id : bool; fo_id : Z; fo_sync : bool; fo_class : N; fo_val : Z }.
@@ -18,6 +19,10 @@ Fixpoint walk (c : cfg) (s : st) (l : list tev) (acc : list N) : st * list N :=
   match l with
   | [] => (s, acc)
   | TE e :: r => walk c (step c s e) r acc
+  | TN k :: r =>
+      (* from the client's generator it is a send whose entry does not stay (the id is consumed,
+         nobody waits); from the listener's generator it draws an id like a heartbeat *)
+      walk c (step c s (if c_ids_plain c then ESend k true else EHeartbeat false)) r acc
   | TObs nt np :: r =>
       let a1 := if N.eqb (N.of_nat (length (table s))) nt then acc else 1%N :: acc in
       let a2 := if N.eqb (N.of_nat (parked s)) np then a1 else 2%N :: a1 in
